@@ -47,6 +47,7 @@ fn scalar(r: &mut Rng) -> Value {
         3 => json!({"a": {"b": [1, 2, 3]}, "c": "d"}),
         4 => json!(1),
         5 => json!(2.5),
+        6 if r.chance(1, 2) => json!(9_007_199_254_740_993i64),
         _ => json!(ascii!(r, 1 + r.usize(8))),
     }
 }
@@ -59,7 +60,8 @@ fn expectation(r: &mut Rng, used: &mut Vec<String>) -> ClaimSpec {
             2 => ClaimSpec::Aud(ascii!(r, 1 + r.usize(8))),
             3 => ClaimSpec::Jti(ascii!(r, 1 + r.usize(8))),
             4 => ClaimSpec::Native { key: (*r.pick(&["uid", "n", "level"])).to_string(), val: NativeVal::I64(r.range(-5, 5) as i64) },
-            _ => ClaimSpec::Custom { key: (*r.pick(&["role", "scope", "data", "k", "tenant", "Role"])).to_string(), value: scalar(r) },
+            5 => ClaimSpec::Iat(format!("20{:02}-0{}-1{}T0{}:00:00{}", 20 + r.below(10), 1 + r.below(9), r.below(9), r.below(9), *r.pick(&["Z", "+00:00", "-05:00"]))),
+            _ => ClaimSpec::Custom { key: (*r.pick(&["role", "scope", "data", "k", "tenant", "Role", "a/b", "a~1b", "https://example.com/claims/seats", "x.y"])).to_string(), value: scalar(r) },
         };
         if !used.contains(&c.key().to_string()) {
             used.push(c.key().to_string());
@@ -93,7 +95,14 @@ fn mutate_value(r: &mut Rng, v: &Value) -> Value {
                     json!(n.as_f64().unwrap_or(0.0) + 1.0)
                 }
             }
-            2 => json!(n.as_f64().unwrap_or(0.0) + 1.0),
+            2 => {
+                if let Some(i) = n.as_i64() {
+                    // a different integer (for large ones: one that an f64 comparison cannot tell apart)
+                    json!(i - 1)
+                } else {
+                    json!(n.as_f64().unwrap_or(0.0) + 1.0)
+                }
+            }
             _ => json!(true),
         },
         Value::Bool(b) => match r.below(3) {
@@ -145,6 +154,12 @@ fn derive(r: &mut Rng, e: &[ClaimSpec], class: u64) -> Vec<ClaimSpec> {
                         ClaimSpec::Sub(_) => ClaimSpec::Sub(nv),
                         ClaimSpec::Aud(_) => ClaimSpec::Aud(nv),
                         ClaimSpec::Jti(_) => ClaimSpec::Jti(nv),
+                        ClaimSpec::Iat(old) => {
+                            // another well-formed instant
+                            let mut b = old.into_bytes();
+                            b[3] = if b[3] == b'9' { b'8' } else { b[3] + 1 };
+                            ClaimSpec::Iat(String::from_utf8(b).unwrap_or_default())
+                        }
                         o => o,
                     }
                 } else {
@@ -219,8 +234,14 @@ fn gen(ctx: &GenCtx, i: u64, prop: &str) -> Option<Run> {
     let kf_shadowed = prop == "C15" && default_validators && i % 31 == 5;
     for k in 0..nv {
         let keyname = loop {
-            let c = (*r.pick(&["vdata", "vrole", "vabsent", "vnum", "sub", "aud", "jti", "iss"])).to_string();
-            if !used.contains(&c) {
+            let c = (*r.pick(&["vdata", "vrole", "vabsent", "vnum", "sub", "aud", "jti", "iss", "v/data", "v~1x", "https://example.com/claims/v", "exp", "nbf"])).to_string();
+            // the same key may be registered twice (the later registration is the one in force); exp/nbf
+            // validators replace the default ones of PasetoParser::default()
+            let dup_ok = prop == "C16" && validators.iter().any(|x: &ValidatorSpec| x.claim.key() == c) && r.chance(1, 3);
+            if (c == "exp" || c == "nbf") && (prop != "C16" || !r.chance(1, 4)) {
+                continue;
+            }
+            if !used.contains(&c) || dup_ok {
                 used.push(c.clone());
                 break c;
             }
@@ -230,6 +251,8 @@ fn gen(ctx: &GenCtx, i: u64, prop: &str) -> Option<Run> {
             "aud" => ClaimSpec::Aud(String::new()),
             "jti" => ClaimSpec::Jti(String::new()),
             "iss" => ClaimSpec::Iss(String::new()),
+            "exp" => ClaimSpec::Exp("2019-01-01T00:00:00+00:00".into()),
+            "nbf" => ClaimSpec::Nbf("2019-01-01T00:00:00+00:00".into()),
             _ => ClaimSpec::Custom { key: keyname.clone(), value: json!("") },
         };
         let behaviour = match r.below(6) {
@@ -276,7 +299,7 @@ fn gen(ctx: &GenCtx, i: u64, prop: &str) -> Option<Run> {
         // values the validators will look at
         for vs in &validators {
             let k = vs.claim.key().to_string();
-            if k == "vabsent" || claims.iter().any(|c| c.key() == k) {
+            if k == "vabsent" || k == "exp" || k == "nbf" || claims.iter().any(|c| c.key() == k) {
                 continue;
             }
             if r.chance(2, 3) {
@@ -368,12 +391,29 @@ fn gen(ctx: &GenCtx, i: u64, prop: &str) -> Option<Run> {
         }
     }
     let mut at = now + r.range(1, 1000);
-    for m in schedule {
+    let reconf_at = if r.chance(1, 3) && layer != Layer::Core && !expect_via_extend { Some(1 + r.usize(schedule.len().max(1))) } else { None };
+    for (pos, m) in schedule.into_iter().enumerate() {
+        if Some(pos) == reconf_at {
+            // the live parser is re-configured between two parses
+            let op = if prop == "C15" || validators.len() >= 6 || r.chance(1, 2) {
+                if !expect.is_empty() && r.chance(2, 3) {
+                    // same key, other value: the later expectation is the one in force
+                    let e = r.pick(&expect).clone();
+                    let d = derive(&mut r, &[e.clone()], 3);
+                    VOp::CheckClaim(d.into_iter().next().unwrap_or(e))
+                } else {
+                    VOp::CheckClaim(ClaimSpec::Custom { key: "late".into(), value: json!("x") })
+                }
+            } else {
+                VOp::ValidateClaim(ValidatorSpec { claim: ClaimSpec::Custom { key: "vlate".into(), value: json!("") }, behaviour: if r.chance(1, 2) { Behaviour::Reject } else { Behaviour::Accept }, via: Via::Validate })
+            };
+            rb.push(Op::Reconfigure { v, op });
+        }
         at += r.range(0, 60 * crate::civil::NS);
         if at >= now + HOUR {
             at = now + HOUR - 1;
         }
-        rb.push(Op::Deliver { msg: m, to: v, now_ns: Ns(at), ticks: vec![], twin: true, control: Some(Box::new(control.clone())) });
+        rb.push(Op::Deliver { msg: m, to: v, now_ns: Ns(at), ticks: vec![], twin: true, control: Some(Box::new(control.clone())), key: None });
     }
     // C16: wrong footer / assertion expectations on separate verifiers with the same validators
     if prop == "C16" && r.chance(1, 2) {
